@@ -218,6 +218,32 @@ def signature_limit_cases():
     return None
 
 
+def long_value_cases():
+    """header fields without a length limit of their own - an object path, a destination's ... no: only the PATH - may be long; string
+    values of the body may be long; such messages are built and parsed, in either byte order, whatever the order of the fields"""
+    from txdbus import message
+    for n_el in (40, 90, 400):
+        path = '/' + '/'.join('element%d' % i for i in range(n_el))            # 360 .. 4000 characters
+        text = 'v' * (3 * len(path))
+        try:
+            m = message.MethodCallMessage(path, 'M', interface='a.b', signature='so', body=[text, path])
+            back = message.parseMessage(m.rawMessage, [])
+        except Exception as e:
+            return 'a call to an object path of %d characters raised %s: %s' % (len(path), type(e).__name__, str(e)[:80])
+        if back.path != path or back.body != [text, path]:
+            return 'a call to an object path of %d characters came back with a path of %r characters' % (len(path), back.path and len(back.path))
+        for le in (True, False):
+            for fields in ([(1, path), (2, 'a.b'), (3, 'S'), (8, 's')], [(8, 's'), (3, 'S'), (2, 'a.b'), (1, path)]):
+                raw = ref_message(4, 0, 5, fields, 's', [text], le)
+                try:
+                    back = message.parseMessage(raw, [])
+                except Exception as e:
+                    return 'parsing a %s-endian signal from an object path of %d characters raised %s: %s' % ('little' if le else 'big', len(path), type(e).__name__, str(e)[:80])
+                if back.path != path or back.member != 'S' or back.body != [text]:
+                    return 'a %s-endian signal from an object path of %d characters parsed to path length %r, member %r' % ('little' if le else 'big', len(path), back.path and len(back.path), back.member)
+    return None
+
+
 def invalid_name_cases():
     """a message naming an invalid path, interface, member, destination or error name cannot be constructed"""
     from txdbus import message
@@ -390,7 +416,7 @@ def bounded(tier, seed):
             f, raw = foreign_case(rnd, kind, fields, flags, serial, body_sig, body_vals, le)
             if f:
                 return n, f, {'raw': raw.hex()}
-    for case in (invalid_name_cases, descriptor_header_cases, signature_limit_cases):
+    for case in (invalid_name_cases, descriptor_header_cases, signature_limit_cases, long_value_cases):
         n += 1
         f = case()
         if f:
